@@ -58,3 +58,19 @@ theorem C06_successor (hack : Bool) (f : Flow) (rd : BodyReader)
 
 example : rfcFraming false .get 200 { cl := some (some 5), chunked := true } = .ok (.chunked .size) := by
   simp [rfcFraming]
+
+/-- **C06 (the coding name is compared whole).** The token comparison behind "declares a chunked transfer
+    coding" matches only a token of exactly the length of `chunked`: no prefix of the word, no extension of it,
+    no empty list element counts as the chunked coding. -/
+theorem C06_token_exact (a lit : Bytes) (h : eqLowerAscii a lit = true) : a.length = lit.length := by
+  unfold eqLowerAscii at h
+  simp only [Bool.and_eq_true, beq_iff_eq] at h
+  exact h.1
+
+-- near-misses of the word, evaluated (tests, labelled as tests)
+#guard !(eqLowerAscii (strBytes "chunk") (strBytes "chunked"))
+#guard !(eqLowerAscii (strBytes "chunked-v2") (strBytes "chunked"))
+#guard !(eqLowerAscii (strBytes "") (strBytes "chunked"))
+#guard !(eqLowerAscii (trimAscii (strBytes "chunked" ++ [0xc2, 0xa0])) (strBytes "chunked"))   -- U+00A0 is no optional whitespace
+#guard (eqLowerAscii (trimAscii (strBytes "chunked ")) (strBytes "chunked"))
+#guard (eqLowerAscii (trimAscii (strBytes " \tCHUNKed ")) (strBytes "chunked"))
